@@ -262,7 +262,10 @@ def checkRig (prop : String) (input : Json) (impl : Json) : PropOut := Id.run do
           let onlyEnc := encodedPath && (distinct.map (·.1)).eraseDups.length = 1
           let onlyFiberEmpty := emptyHeader && ((views.filter (·.1 ≠ "fiber")).map (·.2)).eraseDups.length = 1
           let onlyFiberHyphen := hyphenVar && ((views.filter (·.1 ≠ "fiber")).map (·.2)).eraseDups.length = 1
-          fails := fails ++ [(if onlyEnc then "C12-F1:" else if onlyFiberEmpty then "C12-F3:" else if onlyFiberHyphen then "C12-F4:" else "") ++ s!"engines-disagree:{kind}:{jstrD rq "method"} {jstrD rq "path"}:{views.map fun (e, v) => e ++ "=" ++ v.1}"]
+          -- both at once: a percent-encoded value (F1: chi / echo hand it over undecoded) under a hyphenated variable (F4:
+          -- fiber does not route it at all) - the four other engines still answer with one status
+          let encAndHyphen := encodedPath && hyphenVar && ((views.filter (·.1 ≠ "fiber")).map (·.2.1)).eraseDups.length = 1
+          fails := fails ++ [(if onlyEnc then "C12-F1:" else if onlyFiberEmpty then "C12-F3:" else if onlyFiberHyphen || encAndHyphen then "C12-F4:" else "") ++ s!"engines-disagree:{kind}:{jstrD rq "method"} {jstrD rq "path"}:{views.map fun (e, v) => e ++ "=" ++ v.1}"]
       wants := wants ++ [(toString id, outcomeJson want)]
       gots := gots ++ [(toString id, Json.mkObj (views.map fun (e, v) => (e, outcomeJson v)))]
     let fails' := fails.eraseDups
